@@ -45,7 +45,51 @@ NEEDS = {
 "C20C": ("two file-local helpers with one name in two .cpp files meet in the amalgamation (overload resolution changes); header regenerated exactly", "single-header build, SentryFormatter and a source path with backslashes only"),
 "C20D": ("an X-macro table included twice in the sources, expanded once by the generator", "single-header build and %{if-info|warning|critical} or a typed category rule"),
 }
+
+NEEDS3 = {
+"C01E": ("SimplePipeline::pipeline(): sub-pipelines below the first nesting level are created unscoped", "a sub-pipeline inside a sub-pipeline (depth >= 2) that formats or adds attributes, followed by siblings / later handlers of the enclosing pipeline"),
+"C01F": ("SimplePipeline attribute helpers (addSeqNumber, addAppInfo, attrHandler, ...) use the sorted typed insert instead of append", "an attribute handler added after a filter, formatter, sink or sub-pipeline"),
+"C02E": ("resetOwnThread() clears m_worker (back to synchronous mode) in front of the drain loop", "reset with a backlog while another thread logs: caller-side and worker-side runs overlap"),
+"C02F": ("~Logger un-publishes the active logger with check-then-store instead of compare-and-swap", "old logger destroyed on one thread while another thread installs a new one: every later message is dropped"),
+"C03E": ("hand-off event priority depends on the message severity", "messages of mixed severity and a backlog: warnings overtake queued debug messages"),
+"C03F": ("LogMessage::qthreadptr() returns QThread::currentThread() of the reading thread", "asynchronous mode and a consumer of qthreadptr() (%{qthreadptr})"),
+"C04E": ("process() builds the event before taking the mutex and branches on 'have an event' (unlocked mode check)", "a stop completing between the unlocked check and the lock: event posted to a null worker, pending count stuck"),
+"C04F": ("the destructor zeroes the pending count when the worker made no progress for 3 s", "one delivery stalling longer than 3 s at destruction with messages queued behind it"),
+"C05E": ("rotate() reopens the active file with Truncate instead of Append", "a rotation whose rename fails: the reopen wipes the file that is still in place"),
+"C05F": ("generateRotatedFileName/findRotatedFiles split the name at the first dot, findNextIndexForDate still at the last", "a log file name with more than one dot, Compression and two rotations on one day: the .gz is overwritten"),
+"C06E": ("removeOldFiles() removes at most one file per call", "a directory that already holds more rotated files than the limit (limit lowered between runs)"),
+"C06F": ("retention hoisted out of rotate() into rotateIfNeeded(); the start-up rotation no longer cleans up", "frequent restarts with RotationOnStartup that never reach the size limit"),
+"C07E": ("a record dated before the current file returns right after the daily check (size check skipped)", "RotationDaily + size limit and records older than the file's date"),
+"C07F": ("IODeviceSink::send indents continuation lines (\\n -> \\n\\t); the rotating sink measures the unindented text", "a multi-line record arriving when the space left is within a few bytes of its measured size"),
+"C08E": ("checkSizeRotation reads pos() instead of size() (no flush) and rotate() closes the file only before the reopen", "Compression and a size-triggered rotation: the .gz is made from the on-disk prefix, the buffered tail is lost"),
+"C08F": ("compressFile reads into a grow-only member buffer and compresses the whole buffer", "a rotated file shorter than an earlier one of the same sink: stale tail appended, CRC mismatch"),
+"C09E": ("the emptiness guard of the daily rotation reads a size counter only the size-limit path maintains", "RotationDaily without a size limit across a day change: records of several days share one file"),
+"C09F": ("retention orders the rotated files by (index, date, path)", "a day change while older-day files with higher indices are kept: the new day's .1 is deleted and index 1 is reused"),
+"C10E": ("the file reopened after a rotation is opened WriteOnly|Text (truncating)", "a single failed rename during any rotation"),
+"C10F": ("next rotation index derived from the newest rotated file only", "RotationDaily|Compression with record days arriving out of order: an existing .gz of the earlier day is overwritten"),
+"C11E": ("FileSink::flush() skips the flush when the write position equals the position of the last flush", "a rotating sink, a rotation, and the new file reaching exactly the old position at the fatal message (crash loop)"),
+"C11F": ("FileSink::flush() refuses to flush from a thread other than the one the QFile lives in", "qFatal() raised from a thread other than the one that configured the logger"),
+"C12E": ("%{shortfile} caches the shortened path keyed on the const char * of the file name", "two messages with different file names at the same address (reused buffers, QML)"),
+"C12F": ("bulk copy of literal runs up to the next '%{' with replace('%%', '%')", "'%%{' preceded by plain text in the same literal run"),
+"C13E": ("string values that parse as ISO dates are rewritten as date-times (QVariant::toDateTime on every value)", "a message text or string attribute that is entirely an ISO-8601 date"),
+"C13F": ("JsonFormatter::instance(compact) keeps one static instance; formatToJson uses it", "an indented JSON formatter requested first, a compact one later in the same process"),
+"C14E": ("PrettyFormatter pads columns from a fixed 32-blank buffer with append(ptr, n)", "maxCategoryWidth above 32 and a long category followed by a short one: heap over-read"),
+"C14F": ("format-spec width parsed digit by digit (width = width*10 + digit), clamp after the loop", "a width of 10 or more digits >= 2^31: signed overflow"),
+"C15E": ("the message category is decoded with fromLatin1 in filter()", "a non-ASCII category name and a rule spelling the non-ASCII part literally"),
+"C15F": ("the rule-line grammar gets CaseInsensitiveOption", "a category whose last component is a level word in another case (net.Info), or a value written TRUE/FALSE"),
+"C16E": ("Filter::process returns type == QtFatalMsg || filter(lmsg)", "a fatal message a regexp / duplicate filter would drop; the duplicate filter's memory goes stale"),
+"C16F": ("RegExpFilter matches formattedMessage() instead of message()", "a formatter running before the filter and an anchored expression"),
+"C17E": ("insertBetweenNearLeft removes an earlier occurrence of the handler after computing the insertion index", "the same handler instance re-appended while a later class is present"),
+"C17F": ("insertion position looked up with indexOf(*it) + 1 in a forward loop", "a handler instance stored twice with another handler in between, then a typed append"),
+"C18E": ("default category decided with isNull() instead of isEmpty()", "a message whose context carries an empty, non-null category"),
+"C18F": ("fingerprint prefix cut on the UTF-8 bytes (toUtf8().left(100))", "a message longer than 100 bytes with non-ASCII text in its first 100 characters"),
+"C19E": ("one function-local static caches the isatty() answer for both console streams", "stdout and stderr differing in being a terminal, both with colour Auto"),
+"C19F": ("rename slip in the INI console block: stderr sink guarded by useStdErr || stdOutColor", "stdout_color=true without stderr, or stderr_color=true without stderr=true"),
+"C20E": ("flush-on-fatal wrapped in #ifdef QTLOGGER_FLUSH_ON_FATAL that only the CMake/qmake builds define", "header-only consumer, file sink, qFatal: the repair is compiled out of the single header"),
+"C20F": ("const auto prefix = group + QLatin1Char('/') in configure(QSettings)", "header-only consumer compiling with QT_USE_QSTRINGBUILDER: the proxy references a dead temporary, the INI section is ignored"),
+}
 ROUND2 = "/tmp/seed2_out"
+ROUND3 = "/tmp/seed3_out"
 VERIF = os.path.dirname(os.path.dirname(os.path.abspath(__file__)))
 head = subprocess.run(["git", "-C", "/repo", "rev-parse", "--short", "HEAD"], stdout=subprocess.PIPE, text=True).stdout.strip()
 vhead = subprocess.run(["git", "-C", VERIF, "rev-parse", "--short", "HEAD"], stdout=subprocess.PIPE, text=True).stdout.strip()
@@ -58,31 +102,48 @@ def static_block(m, pid):
 
 
 if "--refresh-only" not in sys.argv:
-    matrix = json.load(open(ROUND2 + "/matrix.json"))
-    for pid in ["C%02d" % i for i in range(1, 21)]:
-        for v, nv in (("A", "C"), ("B", "D")):
-            src = "%s/%s/%s" % (ROUND2, pid, v)
-            sid = pid + nv
-            dst = os.path.join(VERIF, "seeded", sid)
-            if os.path.exists(dst):
-                shutil.rmtree(dst)
-            os.makedirs(dst)
-            shutil.copy(src + "/patch.diff", dst + "/patch.diff")
-            shutil.copytree(src + "/demo", dst + "/demo", ignore=shutil.ignore_patterns("build*", "*.o", "_build", "__pycache__"))
-            if os.path.exists(src + "/notes.md"):
-                shutil.copy(src + "/notes.md", dst + "/notes.md")
-            ver = open(src + "/verify.txt").read()
-            what, needs = NEEDS[sid]
-            meta = {
-                "id": sid, "round": 2, "breaks_property": pid, "origin": "independent sub-agent given only the property text, the two earlier changes' one-line summaries (to avoid repeats) and a scratch worktree (nothing from /verif)",
-                "change": what, "needs_to_manifest": needs,
-                "confirmed_by_me": {
-                    "how": "tools/seedverify.sh: scratch worktree of /repo HEAD %s, git apply, cmake -DQTLOGGER_NO_EXAMPLES=ON + build, ctest (18 programs = the 349 QtTest functions), demo/demo.sh with the change (must fail) and after git checkout (must pass); worktree removed" % head,
-                    "log": ver.strip().splitlines(),
-                },
-                "static_checks": static_block(matrix["%s/%s" % (pid, v)], pid),
-            }
-            json.dump(meta, open(dst + "/meta.json", "w"), indent=1)
+    for root, rnd, letters, needs, origin in (
+            (ROUND2, 2, (("A", "C"), ("B", "D")), NEEDS, "independent sub-agent given only the property text, the two earlier changes' one-line summaries (to avoid repeats) and a scratch worktree (nothing from /verif)"),
+            (ROUND3, 3, (("A", "E"), ("B", "F")), NEEDS3, "independent sub-agent given only the property text, the four earlier changes' one-line summaries (to avoid repeats) and a scratch worktree (nothing from /verif)")):
+        if not os.path.exists(root + "/matrix.json"):
+            continue
+        matrix = json.load(open(root + "/matrix.json"))
+        for pid in ["C%02d" % i for i in range(1, 21)]:
+            for v, nv in letters:
+                src = "%s/%s/%s" % (root, pid, v)
+                sid = pid + nv
+                if not os.path.exists(src + "/verify.txt") or "%s/%s" % (pid, v) not in matrix:
+                    continue
+                dst = os.path.join(VERIF, "seeded", sid)
+                keep = None
+                if os.path.exists(dst + "/meta.json"):
+                    old = json.load(open(dst + "/meta.json"))
+                    if old.get("rebased"):
+                        keep = old     # patch was re-created on a later /repo HEAD: keep it and its verification log
+                if keep is None:
+                    if os.path.exists(dst):
+                        shutil.rmtree(dst)
+                    os.makedirs(dst)
+                    shutil.copy(src + "/patch.diff", dst + "/patch.diff")
+                    shutil.copytree(src + "/demo", dst + "/demo", ignore=shutil.ignore_patterns("build*", "*.o", "_build", "__pycache__"))
+                    if os.path.exists(src + "/notes.md"):
+                        shutil.copy(src + "/notes.md", dst + "/notes.md")
+                ver = open(src + "/verify.txt").read()
+                vhead_repo = ver.split("/repo HEAD ")[1].split()[0] if "/repo HEAD " in ver else head
+                what, needs_ = needs[sid]
+                meta = {
+                    "id": sid, "round": rnd, "breaks_property": pid, "origin": origin,
+                    "change": what, "needs_to_manifest": needs_,
+                    "confirmed_by_me": {
+                        "how": "tools/seedverify.sh: scratch worktree of /repo HEAD %s, git apply, cmake -DQTLOGGER_NO_EXAMPLES=ON + build, ctest (18 programs = the 349 QtTest functions), demo/demo.sh with the change (must fail) and after git checkout (must pass); worktree removed" % vhead_repo,
+                        "log": ver.strip().splitlines(),
+                    },
+                    "static_checks": static_block(matrix["%s/%s" % (pid, v)], pid),
+                }
+                if keep is not None:
+                    meta["rebased"] = keep["rebased"]
+                    meta["confirmed_by_me"] = keep["confirmed_by_me"]
+                json.dump(meta, open(dst + "/meta.json", "w"), indent=1)
 # refresh round 1 from its matrix when present
 m1 = "/tmp/seed_out/matrix.json"
 if os.path.exists(m1):
